@@ -1,17 +1,26 @@
 SPEC_PART = dict(
     props_file="C17_hll",
     legs=[dict(family="hll", focus="extremes", oracles=["prop_ok", "union_ok", "no_panic"], profiles=["debug", "release"],
-               mask=[1, 2, 3, 6, 7, 8, 10, 11, 12, 13, 14, 15, 16, 17, 18, 20], n_quick=16, n_thorough=200, panic_is_violation=True)],
+               mask=[1, 2, 3, 4, 5, 6, 7, 8, 10, 11, 12, 13, 14, 15, 16, 17, 18, 20, 22, 30, 31], n_quick=16, n_thorough=200,
+               panic_is_violation=True)],
     trusted=["hll: the modelled panic sites are new()'s range assert, 'HashSet full', AuxMap's three unreachable!()s, Array4::update's "
              "expect()s / unreachable!() / counter underflow, the debug assertions and the 64-round bound of shift_to_bigger_cur_min, "
-             "the union helpers' asserts / unreachable!()s, the reader's shift by lg_arr; u8/u32/usize arithmetic is not modelled "
-             "(bounded by the invariants: values <= 63, counts <= 2^21)"],
-    assumptions=["hll: 4 <= lg_k <= 21 (new() panics otherwise: documented); coupons as produced by coupon() (value 1..63)"],
+             "the union helpers' asserts / unreachable!()s; u8/u32/usize arithmetic is not modelled "
+             "(bounded by the invariants: values <= 63, counts <= 2^21)",
+             "hll: estimate() / upper_bound() / lower_bound() of HllSketch and HllUnion have NO theorem: their panic sites (debug "
+             "assertions of cubic_interpolation, slice indexing in composite_interpolation / harmonic_numbers, get_rel_err's tables) "
+             "have no Stuck counterpart, the model's hll_estimate is a total function and the composite estimator is not modelled; "
+             "they are exercised by the run only (ops 4, 5, 19, 21, 32 in every phase of the extremes leg, debug + release)"],
+    assumptions=["hll: 4 <= lg_k <= 21 (new() panics otherwise: documented); coupons as produced by coupon() (value 1..63)",
+                 "hll: est_ok for 'the image of a reachable sketch is accepted' (see C11_hll)"],
     covers="hll: HllSketch::new / update for every lg_k in 4..21 (both extremes), type and stream; Array4's shift loop and its (repaired, "
            "D10) debug assertions; HllUnion new / update (any well-formed input) / update_value / reset / to_sketch(t); serialize, "
-           "deserialize of reachable sketches and of arbitrary bytes: the model returns Ok (or Err for bad bytes), never Stuck -- "
-           "restatements of c02_hll_refines, c03_union_refines, c11_hll_roundtrip_of_stream, c14_hll_deserialize_total. Tie: valid "
-           "histories at lg_k 4 (every stream kind: values up to 63, cur_min shifting to the top, aux growth and the exception "
-           "boundary) and lg_k 21 (long list / set phases, set growth), unions with lg_max 4 and 21 over inputs at lg_k 4, 21 and in "
-           "between, serialize / round trip everywhere; debug and release, any panic is a violation.",
+           "deserialize of reachable sketches and of arbitrary bytes; further updates of, and merges with, what the reader returned "
+           "(canonical images: c17_hll_deserialized_updates_never_stuck, c17_hll_deserialized_is_union_input): the model returns Ok "
+           "(or Err for bad bytes), never Stuck -- restatements of c02_hll_refines, c03_union_refines, c11_hll_roundtrip_of_stream, "
+           "c14_hll_deserialize_total and of the bridge. NOT covered by a theorem: estimate / bounds of sketch and union (see "
+           "trusted). Tie: valid histories at lg_k 4 (every stream kind: values up to 63, cur_min shifting to the top, aux growth and "
+           "the exception boundary) and lg_k 21 (long list / set phases, set growth), unions with lg_max 4 and 21 over inputs at "
+           "lg_k 4, 21 and in between, estimates and bounds, serialize / round trip / re-serialization / merge everywhere; debug and "
+           "release, any panic is a violation.",
 )
